@@ -271,6 +271,33 @@ func main() {
 		must(os.WriteFile(dst, buf.Bytes(), 0o644))
 		replace[src] = dst
 	}
+	// 2b. mode xorold: select the word-wise implementation (xor_old.go) instead of the crypto/subtle delegation by
+	// rewriting only the //go:build lines of the current working-tree files (the gccgo tag cannot be used for this:
+	// it also switches files inside the standard library and yields a crashing runtime).
+	if *mode == "xorold" {
+		for _, fc := range [][2]string{{"utils/xor/xor_old.go", "//go:build !arm"}, {"utils/xor/xor_generic.go", "//go:build ignore"}} {
+			src := filepath.Join(*repo, fc[0])
+			b, err := os.ReadFile(src)
+			must(err)
+			lines := strings.Split(string(b), "\n")
+			n := 0
+			for i, l := range lines {
+				if strings.HasPrefix(l, "//go:build ") {
+					lines[i] = fc[1]
+					n++
+				} else if strings.HasPrefix(l, "// +build ") {
+					lines[i] = "//"
+				}
+			}
+			if n != 1 {
+				fmt.Fprintln(os.Stderr, "instr: expected exactly one //go:build line in", fc[0])
+				os.Exit(1)
+			}
+			dst := filepath.Join(*out, strings.ReplaceAll(fc[0], "/", "__"))
+			must(os.WriteFile(dst, []byte(strings.Join(lines, "\n")), 0o644))
+			replace[src] = dst
+		}
+	}
 	// 3. per package yield variable
 	for dir, name := range ypk {
 		dst := filepath.Join(*out, strings.ReplaceAll(dir, "/", "__")+"__zz_verif_yield.go")
